@@ -227,8 +227,7 @@ C01_OK(cfg, in, o) ==
                                <= Cardinality({ j \in DirectKids(in) : Ident(in.kids[j].c) = c })
       \* an unsigned Response is accepted only if every assertion it carries is individually signed
       \* (a nested kid rides in an unsigned carrier assertion that is itself a direct child)
-      /\ (~RootGenuine(in) => \A j \in DOMAIN in.kids : /\ in.kids[j].place # "nested"
-                                                         /\ in.kids[j].place = "direct" => OwnSigned(in.kids[j]))
+      /\ (~RootGenuine(in) => \A j \in DOMAIN in.kids : in.kids[j].place = "direct" /\ OwnSigned(in.kids[j]))
       /\ Len(o.assertions) >= 1
       \* nothing that no signature covers comes back inside an assertion reported as individually validated (the sender may
       \* add children to a genuine ds:Signature element: the enveloped-signature transform removes the element before digesting)
@@ -237,6 +236,8 @@ C01_OK(cfg, in, o) ==
 \* the assertion-info summary describes the first returned assertion
 Summary_OK(o) ==
    /\ (o.info.res = "accept") => (o.res = "accept" /\ o.info.first = o.assertions[1].c /\ o.info.n = Len(o.assertions))
+   \* the assertions handed out with the summary carry the same flags as the validated ones
+   /\ (o.info.res = "accept") => (o.info.aflags = [i \in DOMAIN o.assertions |-> o.assertions[i].flag])
    /\ (o.res = "reject") => o.info.res = "reject"
 
 C04_OK(cfg, in, o) ==
@@ -255,7 +256,10 @@ C07_OK(cfg, in, o) ==
 
 \* C02 (fragment visible here): a root signature that names the root and does not verify is fatal
 C02_OK(cfg, in, o) ==
-   (~cfg.skip /\ (in.rsig \in {"att", "attIdp", "reloc", "malformed"} \/ (in.rsig = "lifted" /\ in.rid = "r1" /\ ~IsGR0(in)))) => o.res = "reject"
+   /\ (~cfg.skip /\ (in.rsig \in {"att", "attIdp", "reloc", "malformed"} \/ (in.rsig = "lifted" /\ in.rid = "r1" /\ ~IsGR0(in)))) => o.res = "reject"
+   \* an assertion of an unsigned Response whose own signature is there but does not verify is fatal too, wherever it stands
+   \* and whatever came before it
+   /\ (~cfg.skip /\ in.rsig = "none" /\ \E j \in DOMAIN in.kids : in.kids[j].sig \in {"copied", "att", "attIdp"}) => o.res = "reject"
 
 \* C20: whatever is accepted was pre-decoded to the same addressing fields
 C20_OK(cfg, in, o) == (o.res = "accept") => (o.pre.ok /\ o.pre.agree)
